@@ -520,6 +520,54 @@ def extract_inventory() -> dict:
     return {"callableParams": cps, "attrWiring": wiring, "problems": problems}
 
 
+# ------------------------------------------------------------------ how `subgraph` itself uses its callback
+def extract_callback_uses() -> dict:
+    """Every occurrence of the callback parameter inside `spox._graph.subgraph`, classified:
+    `call:*<name>` (called with one starred argument and nothing else), `call:other` (any other call shape),
+    `arg-of:<callee>` (handed to another function), `attr:<name>` (an attribute of the callable is read),
+    `other`. Also the names imported by `_graph.py` at module level that could introspect callables."""
+    tree = ast.parse((REPO / "src/spox/_graph.py").read_text())
+    fn = next((n for n in tree.body if isinstance(n, ast.FunctionDef) and n.name == "subgraph"), None)
+    if fn is None or len(fn.args.args) < 2:
+        return {"param": "?", "uses": ["other:subgraph not found"], "introspection": []}
+    cb = fn.args.args[1].arg
+    parents = {}
+    for node in ast.walk(fn):
+        for ch in ast.iter_child_nodes(node):
+            parents[ch] = node
+    uses = []
+    for node in ast.walk(fn):
+        if not (isinstance(node, ast.Name) and node.id == cb):
+            continue
+        par = parents.get(node)
+        if isinstance(par, ast.Call) and par.func is node:
+            if len(par.args) == 1 and isinstance(par.args[0], ast.Starred) and not par.keywords:
+                uses.append("call:starred")
+            else:
+                uses.append("call:other")
+        elif isinstance(par, ast.Call):
+            f = par.func
+            uses.append("arg-of:" + (f.id if isinstance(f, ast.Name) else f.attr if isinstance(f, ast.Attribute) else "?"))
+        elif isinstance(par, ast.keyword):
+            uses.append("kwarg:" + str(par.arg))
+        elif isinstance(par, ast.Attribute):
+            uses.append("attr:" + par.attr)
+        elif isinstance(node.ctx, ast.Store):
+            uses.append("rebound")
+        else:
+            uses.append("other:" + type(par).__name__)
+    intro = []
+    for node in ast.walk(fn):
+        if isinstance(node, (ast.Import, ast.ImportFrom)):
+            intro += [a.name for a in node.names]
+    for node in tree.body:
+        if isinstance(node, ast.Import):
+            intro += [a.name for a in node.names if a.name in ("inspect", "functools", "types")]
+        elif isinstance(node, ast.ImportFrom) and node.module in ("inspect", "functools", "types"):
+            intro += [f"{node.module}.{a.name}" for a in node.names]
+    return {"param": cb, "uses": uses, "introspection": sorted(set(intro))}
+
+
 # ------------------------------------------------------------------ generate
 def generate() -> dict:
     mods = extract_modules()
@@ -597,6 +645,17 @@ def generate() -> dict:
             f"({lean_str(m)}, {lean_str(f)}, {lean_list([f'({lean_str(a)}, {lean_str(b)}, {lean_str(c)})' for a, b, c in w])})"
             for m, f, w in inv["attrWiring"]])
         + "\n",
+    ]
+    try:
+        cu = extract_callback_uses()
+    except Exception as e:  # noqa: BLE001
+        cu = {"param": "?", "uses": [f"other:extraction failed {type(e).__name__}"], "introspection": []}
+    inv["callbackUses"] = cu
+    il += [
+        "/-- every occurrence of the callback parameter inside `spox._graph.subgraph`, classified -/",
+        f"def callbackUses : List String := {lean_list([lean_str(u) for u in cu['uses']])}\n",
+        "/-- imports inside `subgraph` and module-level imports of `inspect` / `functools` / `types` in `_graph.py` -/",
+        f"def introspectionImports : List String := {lean_list([lean_str(u) for u in cu['introspection']])}\n",
         "end Generated.SubgraphInventory\n",
     ]
     write_if_changed(GEN / "SubgraphInventory.lean", "\n".join(il))
